@@ -519,7 +519,8 @@ func cmdCheck(args []string) int {
 		ev := map[string]interface{}{
 			"property_id": P, "tier": *tier, "seed": seed, "level": "proof",
 			"coverage": map[string]interface{}{
-				"obligations":              len(names),
+				"obligations":              len(names) - len(knownLines),
+				"known_finding_obligations": len(knownLines),
 				"discharged":               discharged,
 				"obligation_instances":     len(real),
 				"checker_cmd":              "bin/goatvc check -prop " + P + " -tier " + *tier,
